@@ -805,7 +805,9 @@ class SegmentWriter(IndexWriter):
                     spellfield = field.spelling_fieldname(fieldname)
                     for word in spellwords:
                         # item = (fieldname, tbytes, docnum, weight, vbytes)
-                        add_post((spellfield, word, 0, 1, vbytes))
+                        # (posted for the document the word occurs in, so that
+                        # the word stays as long as such a document is live)
+                        add_post((spellfield, word, docnum, 1, vbytes))
 
                 if vitems is not None:
                     perdocwriter.add_vector_items(fieldname, field, vitems)
